@@ -517,7 +517,15 @@ def run_duo6(case):
     return session.run_duo(case, lambda: [resample_law_monitor("pipe"), coherent_monitor("pipe")])
 
 
-KINDS = {"sforms": run_sforms, "duo": run_duo6, "rsyst_full": run_rsyst_full, "session": run_session6, "syst": run_syst, "mult": run_mult, "rsyst": run_rsyst, "post": run_post}
+def run_cross6(case):
+    """A checkpoint resumed by a fresh sampler with another particle count / resampling scheme: the resumed run resamples by ITS scheme from the
+    whole loaded pool (index order, copy counts, no zero-weight particle, every particle a pool record)."""
+    from mc import session
+    from mc.monitors import resample_law_monitor, coherent_monitor
+    return session.run_cross_resume(case, lambda: [coherent_monitor("pipe", resumed=True), resample_law_monitor("pipe")], key_pred=lambda k: ":resample:" in k or "raises" in k)
+
+
+KINDS = {"cross": run_cross6, "sforms": run_sforms, "duo": run_duo6, "rsyst_full": run_rsyst_full, "session": run_session6, "syst": run_syst, "mult": run_mult, "rsyst": run_rsyst, "post": run_post}
 
 
 # ---------------------------------------------------------------------------------------------
@@ -616,3 +624,6 @@ def plan(ctx):
     duo = [{"kind": "duo", "cfg": dict(cfg, resample=ra), "cfg_b": {"resample": rb}, "base": ctx.seed, "depth": 4 if th else 3, "shard": [sh, 4]}
            for ra, rb in (("syst", "mult"), ("mult", "syst"), ("syst", "syst")) for sh in range(4)]
     ctx.explore("two-samplers-interleaved", duo)
+    xpairs = [({"n_particles": 16, "resample": "syst"}, {"n_particles": 24}), ({"n_particles": 24, "resample": "syst"}, {"n_particles": 8}), ({"resample": "mult"}, {"resample": "syst", "n_particles": 12}),
+              ({"resample": "syst"}, {"resample": "mult"}), ({"resample": "syst", "eval": "blobs"}, {"n_particles": 8}), ({"resample": "syst", "ess_ratio": 1.0}, {"ess_ratio": 3.0})]
+    ctx.explore("resume-with-other-options", [{"kind": "cross", "cfg": dict(n_particles=16, d=2, n_total=48, eval="scalar", clustering=False), "pair": list(pr), "base": ctx.seed + b} for pr in xpairs for b in (0, 5)])
